@@ -373,3 +373,51 @@ def compare_streams(rep, lines, outs, tags=None, oracle=None, judge_model=True):
 
 def hexs(b):
     return b.hex() if len(b) else '-'
+
+
+def run_and_judge(rep, cases, model_every=1, rust=('checked', 'fast')):
+    """cases: list of dicts {line, tag, want} where want is None, a string the Rust output must equal, or a
+    callable(out) -> None | reason.  Runs Rust on every case (both profiles) and the model on every
+    `model_every`-th case; records oracle failures (concrete inputs) and correspondence differences."""
+    lines = [c['line'] for c in cases]
+    outs = {}
+    for prof in rust:
+        outs['rust_' + prof] = run_stream([RUST[prof]], lines)
+    midx = [i for i in range(len(cases)) if (model_every and i % model_every == 0) or cases[i].get('model')]
+    mlines = [lines[i] for i in midx]
+    mo = {m: run_stream([MODEL, '--mode', m], mlines) for m in ('checked', 'release')} if mlines else {}
+    mpos = {i: j for j, i in enumerate(midx)}
+    for i, c in enumerate(cases):
+        rep.evaluations += 1
+        rep.count(c['tag'])
+        ok = True
+        for prof in rust:
+            o = outs['rust_' + prof][i]
+            want = c.get('want')
+            why = None
+            if o.startswith('harness:'):
+                why = 'executor failure ' + o
+            elif callable(want):
+                why = want(o)
+            elif want is not None and o != want:
+                why = f'expected {want[:80]}'
+            if why:
+                ok = False
+                rep.violation('implementation-vs-oracle', [c['line']], {'profile': prof, 'tag': c['tag'], 'output': o[:300], 'oracle': why}, True)
+                break
+        if i in mpos and ok:
+            j = mpos[i]
+            for prof, mode in (('checked', 'checked'), ('fast', 'release')):
+                if prof not in rust:
+                    continue
+                rep.corr_compared += 1
+                a, b2 = outs['rust_' + prof][i], mo[mode][j]
+                if canon(a) != canon(b2):
+                    ok = False
+                    rep.violation('correspondence', [c['line']], {'tag': c['tag'], 'rust_' + prof: a[:300], 'model_' + mode: b2[:300]}, False)
+                    break
+        if ok:
+            rep.nontrivial.add((c['tag'], hashlib.sha256(c['line'].encode()).hexdigest()[:16]))
+            if rep.dist[c['tag']] == 1:
+                rep.sample(f"[{c['tag']}] {c['line']} -> {outs['rust_' + rust[0]][i]}", limit=10)
+    return outs
